@@ -15,6 +15,8 @@ OPTIONAL = ["tablespaces", "databases"]
 # frozen marker-key table (bucket by the first key that is present)
 MARKERS = [("table_name", "tables"), ("sequence_name", "sequences"), ("type_name", "types"), ("domain_name", "domains"),
            ("schema_name", "schemas"), ("tablespace_name", "tablespaces"), ("database_name", "databases"), ("value", "ddl_properties")]
+ORPHANS = ["ALTER TABLE undefined_tbl ADD zcol int;", "CREATE INDEX ix_orphan ON undefined_tbl (a);", "CREATE UNIQUE INDEX ix_orphan ON s9.undefined_tbl (a, b);",
+           "ALTER TABLE s9.undefined_tbl ADD CONSTRAINT c9 UNIQUE (a);"]
 COMMENT_STYLES = ["t_dash", "t_dash_nb", "block1", "multi", "t_block"]
 
 
@@ -32,6 +34,9 @@ def gen_case(draw, max_blocks):
     blocks = draw(universe.script(0 if draw(st.integers(0, 9)) == 0 else 1, max_blocks, kinds=universe.BLOCK_KINDS + ["decl", "decl", "seq", "set"],
                                   unsupported_p=draw(st.sampled_from([0, 0, 2, 5]))))
     ops = [draw(comment_op(i)) for i in range(draw(st.integers(0, 3)))]
+    if draw(st.integers(0, 11)) == 0:
+        # an ALTER TABLE / CREATE INDEX whose table the script does not define: both views must agree on it too (today: both raise)
+        blocks = blocks + [{"k": "raw", "c": {"family": "orphan", "text": draw(st.sampled_from(ORPHANS))}}]
     return {"src": "gen", "blocks": blocks, "layout": draw(gen.layout(max_len=40)), "mode": draw(st.sampled_from(universe.MODES)),
             "norm": draw(st.booleans()), "ops": ops}
 
@@ -83,6 +88,18 @@ class C13(Prop):
     def describe(self, case):
         return {"ddl": self.text(case), "mode": case["mode"], "normalize_names": case["norm"], "source": case["src"]}
 
+    def same_object(self, ddl, kw, grouped_first):
+        ctor, run = loader.split_kwargs(kw)
+        try:
+            p = loader.make_parser(ddl, **ctor)
+            if grouped_first:
+                g = p.run(group_by_type=True, **run)
+                return p.run(group_by_type=False, **run), g
+            f = p.run(group_by_type=False, **run)
+            return f, p.run(group_by_type=True, **run)
+        except Exception:
+            return None
+
     def evaluate(self, case):
         out = Outcome()
         ddl = self.text(case)
@@ -90,6 +107,12 @@ class C13(Prop):
         rf = loader.try_parse(ddl, group_by_type=False, **kw)
         rg = loader.try_parse(ddl, group_by_type=True, **kw)
         out.parses += 2
+        # the same relation when one parser object produces both views (flat first or grouped first)
+        both = self.same_object(ddl, kw, case.get("grouped_first", len(ddl) % 2 == 0))
+        out.parses += 2
+        if rf[0] == "ok" and rg[0] == "ok" and both is not None and (both[0] != rf[1] or both[1] != rg[1]):
+            out.fail("same-object-views", "flat / grouped views taken from one parser object differ from the views of fresh objects\nflat fresh=%r\nflat same =%r\ngrouped fresh=%r\ngrouped same =%r\n%r" % (
+                rf[1], both[0], rg[1], both[1], ddl))
         out.label("src:" + case["src"], "mode:" + case["mode"])
         if rf[0] != "ok" or rg[0] != "ok":
             if rf[0] != rg[0] or rf[1] != rg[1]:
